@@ -45,6 +45,11 @@ def items(b, tag):
                                                      b.block([b.expr_stmt(b.bin('Subtract', v('a'), n(1))), req(v('c'), b.string('m'))]))),
         'struct': lambda: b.supart(b.struct('T' + tag, [(b.ty('Uint', 8), 'a'), (b.ty('Uint', 256), 'bq'), (b.ty('Uint', 8), 'c')])),
         'empty_contract': lambda: fam.contract_with(b, [], name='Empty' + tag),
+        # the same function NAME in both items with a different protection status (a verdict cached per name would leak across items)
+        'contract_kill_guarded': lambda: fam.contract_with(b, [b.state_var(b.ty('Address'), x), b.function('Function', 'shutdown', [], [b.fattr('visibility', 'external')], b.block([
+            b.expr_stmt(b.call(v('require'), [b.bin('Equal', b.member(v('msg'), 'sender'), v(x))])), b.expr_stmt(b.call(v('selfdestruct'), [b.call(b.ty('Payable'), [v(x)])]))]))], name='Vault' + tag),
+        'contract_kill_unguarded': lambda: fam.contract_with(b, [b.state_var(b.ty('Address'), y), b.function('Function', 'shutdown', [], [b.fattr('visibility', 'public')], b.block([
+            b.expr_stmt(b.call(v('selfdestruct'), [b.call(b.ty('Payable'), [v(y)])]))]))], name='Faucet' + tag),
         # multi-byte identifiers: byte offsets and character counts differ behind this item
         'struct_unicode': lambda: b.supart(b.struct('Größe' + tag, [(b.ty('Uint', 8), 'später'), (b.ty('Uint', 256), 'naïve_名前'), (b.ty('Uint', 8), 'ça')])),
     }
@@ -172,7 +177,9 @@ def body(chk):
                 todo.append((k1, k2, place, value))
     if chk.quick:
         chk.rng.shuffle(todo)
-        core = [t for t in todo if t[2] != 'first' or 'ctor' in t[0] + t[1]]
+        core = [t for t in todo if t[2] != 'first' or 'ctor' in t[0] + t[1]] + [t for t in todo if 'kill' in t[0] and 'kill' in t[1] and t[0] != t[1]]
+        chk.rng.shuffle(core)
+        core = [t for t in core if 'kill' in t[0] and 'kill' in t[1]] + core
         todo = (core[:40] + todo[:40] + unicode_first[:6])
     chk.bounds = {'files': '%d pairs of top-level items x %d detectors' % (len(todo), len(DETECTORS)),
                   'items': kinds, 'pragma': 'before, between and after the items; versions on both sides of the 0.8.4 gate',
